@@ -125,34 +125,49 @@ Section Phases.
       + apply A9.
       + apply A9.
     - (* while *)
-      intros l c b Hb st NC AL C. assert (L : (l < lo)%N) by (apply AL; simpl; auto).
+      intros l c b e Hb He st NC AL C. assert (L : (l < lo)%N) by (apply AL; simpl; auto).
       destruct (before_flags l L) as [E1 [E2 E3]].
-      simpl in NC.
+      simpl in NC. apply andb_true_iff in NC. destruct NC as [NCb NCe].
       assert (ALb : all_lt (blines b)).
-      { intros y Hy. apply AL. simpl. right. exact Hy. }
-      simpl vs. rewrite E3. unfold loop_enter, loop_exit, cond_enter. rewrite E1, E2. unfold nest_enter, nest_exit.
+      { intros y Hy. apply AL. simpl. right. apply in_or_app. left. exact Hy. }
+      assert (ALe : all_lt (blines e)).
+      { intros y Hy. apply AL. simpl. right. apply in_or_app. right. exact Hy. }
+      assert (SB : match e with [] => false | f :: _ => N.ltb l lo && N.ltb hi (line_of f) end = false).
+      { destruct e as [|f e']; [reflexivity|]. apply andb_false_iff. right. apply N.ltb_ge.
+        assert (line_of f < lo)%N by (apply ALe; simpl; apply in_or_app; left; apply line_in_slines). lia. }
+      simpl vs. rewrite SB. rewrite E3. unfold loop_enter, loop_exit, cond_enter. rewrite E1, E2. unfold nest_enter, nest_exit.
       rewrite ve_before by exact L.
       set (st1 := set_depth (depth st + 1)%Z st).
       fold (vb b st1).
       assert (C1 : cond st1 = false) by exact C.
-      specialize (Hb st1 NC ALb C1). destruct Hb as (A1 & A2 & A3 & A4 & A5 & A6 & A7 & A8 & A9).
+      specialize (Hb st1 NCb ALb C1).
+      assert (Cb : cond (vb b st1) = false) by (apply Hb).
+      fold (vb e (vb b st1)). specialize (He (vb b st1) NCe ALe Cb).
+      pose proof (pre_rel_trans _ _ _ _ _ Hb He) as T.
+      destruct T as (A1 & A2 & A3 & A4 & A5 & A6 & A7 & A8 & A9).
       unfold cond_exit, set_cond, set_depth, pre_rel; simpl. repeat split; auto.
       + rewrite A2. unfold st1. simpl. lia.
       + apply A9.
       + apply A9.
     - (* for *)
-      intros l x e b Hb st NC AL C. assert (L : (l < lo)%N) by (apply AL; simpl; auto).
+      intros l x e b els Hb He st NC AL C. assert (L : (l < lo)%N) by (apply AL; simpl; auto).
       destruct (before_flags l L) as [E1 [E2 E3]].
-      simpl in NC.
+      simpl in NC. apply andb_true_iff in NC. destruct NC as [NCb NCe].
       assert (ALb : all_lt (blines b)).
-      { intros y Hy. apply AL. simpl. right. exact Hy. }
+      { intros y Hy. apply AL. simpl. right. apply in_or_app. left. exact Hy. }
+      assert (ALe : all_lt (blines els)).
+      { intros y Hy. apply AL. simpl. right. apply in_or_app. right. exact Hy. }
       simpl vs. rewrite E3. unfold loop_enter, loop_exit, cond_enter. rewrite E1, E2. unfold nest_enter, nest_exit.
       rewrite rv_before by exact L. rewrite ve_before by exact L. rewrite wv_before by exact L.
       set (st1 := {| prew := add x (prew (set_depth (depth st + 1)%Z st)); mayw := _; wr := _; rd := _;
                      postrd := _; postwr := _; cond := _; depth := _; pnest := _ |}).
       fold (vb b st1).
       assert (C1 : cond st1 = false) by exact C.
-      specialize (Hb st1 NC ALb C1). destruct Hb as (A1 & A2 & A3 & A4 & A5 & A6 & A7 & A8 & A9).
+      specialize (Hb st1 NCb ALb C1).
+      assert (Cb : cond (vb b st1) = false) by (apply Hb).
+      fold (vb els (vb b st1)). specialize (He (vb b st1) NCe ALe Cb).
+      pose proof (pre_rel_trans _ _ _ _ _ Hb He) as T.
+      destruct T as (A1 & A2 & A3 & A4 & A5 & A6 & A7 & A8 & A9).
       unfold cond_exit, set_cond, set_depth, pre_rel; simpl. repeat split; auto.
       + rewrite A2. unfold st1. simpl. lia.
       + intros H. apply A9 in H. unfold st1 in H. simpl in H. destruct H as [H|H].
@@ -483,37 +498,48 @@ Section Phases.
       + intros y Hy. simpl in Hy. rewrite app_nil_r in Hy. exact Hy.
       + intros y Hy. simpl. rewrite app_nil_r. rewrite <- app_assoc. exact Hy.
     - (* while *)
-      intros l c b Hb st NC AG. assert (L : (hi < l)%N) by (apply AG; simpl; auto).
-      simpl in NC.
-      assert (AGb : all_gt (blines b)) by (intros y Hy; apply AG; simpl; right; exact Hy).
+      intros l c b e Hb He st NC AG. assert (L : (hi < l)%N) by (apply AG; simpl; auto).
+      simpl in NC. apply andb_true_iff in NC. destruct NC as [NCb NCe].
+      assert (AGb : all_gt (blines b)) by (intros y Hy; apply AG; simpl; right; apply in_or_app; left; exact Hy).
+      assert (AGe : all_gt (blines e)) by (intros y Hy; apply AG; simpl; right; apply in_or_app; right; exact Hy).
       simpl vs.
       set (after := N.ltb hi l). set (prev := cond st).
+      set (sib := match e with [] => false | f :: _ => N.ltb l lo && N.ltb hi (line_of f) end).
       set (s1 := nest_enter after (cond_enter lo hi l (loop_enter lo l st))).
       fold (vb b (ve l c s1)). set (s2 := vb b (ve l c s1)).
+      fold (vb e (nest_enter sib s2)). set (s3 := nest_exit sib (vb e (nest_enter sib s2))).
       assert (T1 : step [] [] st s1).
       { eapply step_weaken;
           [exact (step_trans _ _ _ _ _ _ _ (step_trans _ _ _ _ _ _ _ (step_same6 _ _ (same6_loop_enter l st))
                                               (step_same6 _ _ (same6_cond_enter l _))) (step_same6 _ _ (same6_nest_enter after _))) | |];
           simpl; auto. }
       assert (T2 : step (defs b) (vars_e c ++ reads b) s1 s2).
-      { eapply step_weaken; [exact (step_trans _ _ _ _ _ _ _ (ve_after l c s1 L) (Hb _ NC AGb)) | |]; simpl; auto. }
-      assert (T3 : step [] [] s2 (loop_exit current lo l (cond_exit current prev (nest_exit after s2)))).
+      { eapply step_weaken; [exact (step_trans _ _ _ _ _ _ _ (ve_after l c s1 L) (Hb _ NCb AGb)) | |]; simpl; auto. }
+      assert (T3 : step (defs e) (reads e) s2 s3).
       { eapply step_weaken;
-          [exact (step_trans _ _ _ _ _ _ _ (step_trans _ _ _ _ _ _ _ (step_same6 _ _ (same6_nest_exit after s2))
+          [exact (step_trans _ _ _ _ _ _ _ (step_trans _ _ _ _ _ _ _ (step_same6 _ _ (same6_nest_enter sib s2)) (He _ NCe AGe))
+                             (step_same6 _ _ (same6_nest_exit sib _))) | |]; simpl; auto.
+        - intros y Hy. rewrite app_nil_r in Hy. exact Hy.
+        - intros y Hy. rewrite app_nil_r. exact Hy. }
+      assert (T4 : step [] [] s3 (loop_exit current lo l (cond_exit current prev (nest_exit after s3)))).
+      { eapply step_weaken;
+          [exact (step_trans _ _ _ _ _ _ _ (step_trans _ _ _ _ _ _ _ (step_same6 _ _ (same6_nest_exit after s3))
                                               (step_same6 _ _ (same6_cond_exit prev _))) (step_same6 _ _ (same6_loop_exit l _))) | |];
           simpl; auto. }
-      eapply step_weaken; [exact (step_trans _ _ _ _ _ _ _ (step_trans _ _ _ _ _ _ _ T1 T2) T3) | |].
+      eapply step_weaken;
+        [exact (step_trans _ _ _ _ _ _ _ (step_trans _ _ _ _ _ _ _ (step_trans _ _ _ _ _ _ _ T1 T2) T3) T4) | |].
       + intros y Hy. simpl in Hy. rewrite app_nil_r in Hy. exact Hy.
-      + intros y Hy. simpl. rewrite app_nil_r. exact Hy.
+      + intros y Hy. simpl. rewrite app_nil_r. rewrite <- app_assoc. exact Hy.
     - (* for *)
-      intros l x e b Hb st NC AG. assert (L : (hi < l)%N) by (apply AG; simpl; auto).
-      simpl in NC.
-      assert (AGb : all_gt (blines b)) by (intros y Hy; apply AG; simpl; right; exact Hy).
+      intros l x e b els Hb He st NC AG. assert (L : (hi < l)%N) by (apply AG; simpl; auto).
+      simpl in NC. apply andb_true_iff in NC. destruct NC as [NCb NCe].
+      assert (AGb : all_gt (blines b)) by (intros y Hy; apply AG; simpl; right; apply in_or_app; left; exact Hy).
+      assert (AGe : all_gt (blines els)) by (intros y Hy; apply AG; simpl; right; apply in_or_app; right; exact Hy).
       simpl vs.
       set (after := N.ltb hi l). set (prev := cond st).
       set (s1 := nest_enter after (cond_enter lo hi l (loop_enter lo l st))).
       set (s2 := wv x l (ve l e (rv name_range l s1))).
-      fold (vb b s2). set (s3 := vb b s2).
+      fold (vb b s2). fold (vb els (vb b s2)). set (s3 := vb els (vb b s2)).
       assert (T1 : step [] [] st s1).
       { eapply step_weaken;
           [exact (step_trans _ _ _ _ _ _ _ (step_trans _ _ _ _ _ _ _ (step_same6 _ _ (same6_loop_enter l st))
@@ -524,7 +550,8 @@ Section Phases.
           [exact (step_trans _ _ _ _ _ _ _ (step_trans _ _ _ _ _ _ _ (rv_after name_range l s1 L) (ve_after l e _ L)) (wv_after x l _ L)) | |];
           simpl; auto.
         intros y Hy. rewrite app_nil_r. exact Hy. }
-      assert (T3 : step (defs b) (reads b) s2 s3) by (apply Hb; assumption).
+      assert (T3 : step (defs b ++ defs els) (reads b ++ reads els) s2 s3).
+      { exact (step_trans _ _ _ _ _ _ _ (Hb _ NCb AGb) (He _ NCe AGe)). }
       assert (T4 : step [] [] s3 (loop_exit current lo l (cond_exit current prev (nest_exit after s3)))).
       { eapply step_weaken;
           [exact (step_trans _ _ _ _ _ _ _ (step_trans _ _ _ _ _ _ _ (step_same6 _ _ (same6_nest_exit after s3))
@@ -583,27 +610,35 @@ Proof.
     + apply in_app_or in H. destruct H as [H|H].
       * destruct (Ha k x H) as [G|G]; [left; simpl; apply in_or_app; right; apply in_or_app; left; exact G | right; exact G].
       * destruct (Hb k x H) as [G|G]; [left; simpl; apply in_or_app; right; apply in_or_app; right; exact G | right; exact G].
-  - intros l c b Hb k x H. rewrite live_s_while in H. unfold live_while, live_while_gen in H.
-    assert (G : In x (vars_e c) \/ In x (reads b) \/ In x (kn k)).
-    { eapply (iter_inv (fun x => In x (vars_e c) \/ In x (reads b) \/ In x (kn k))); [| | exact H].
-      - intros y Hy. apply in_app_or in Hy. destruct Hy; auto.
+  - intros l c b e Hb He k x H. rewrite live_s_while in H. unfold live_while, live_while_gen in H.
+    assert (G : In x (vars_e c) \/ In x (reads b) \/ In x (reads e) \/ In x (kn k) \/ In x (kb k) \/ In x (kc k)).
+    { eapply (iter_inv (fun x => In x (vars_e c) \/ In x (reads b) \/ In x (reads e) \/ In x (kn k) \/ In x (kb k) \/ In x (kc k)));
+        [| | exact H].
+      - intros y Hy. apply in_app_or in Hy. destruct Hy as [Hy|Hy]; [auto|].
+        apply He in Hy. destruct Hy as [Hy|[Hy|[Hy|Hy]]]; auto 7.
       - intros Y HY y Hy. unfold while_step in Hy. apply in_app_or in Hy. destruct Hy as [Hy|Hy]; [auto|].
-        apply in_app_or in Hy. destruct Hy as [Hy|Hy]; [auto|].
-        apply Hb in Hy. simpl in Hy. destruct Hy as [Hy|[Hy|[Hy|Hy]]]; auto. }
-    destruct G as [G|[G|G]].
+        apply in_app_or in Hy. destruct Hy as [Hy|Hy].
+        + apply He in Hy. destruct Hy as [Hy|[Hy|[Hy|Hy]]]; auto 7.
+        + apply Hb in Hy. simpl in Hy. destruct Hy as [Hy|[Hy|[Hy|Hy]]]; auto 7. }
+    destruct G as [G|[G|[G|G]]].
     + left. simpl. apply in_or_app. auto.
-    + left. simpl. apply in_or_app. auto.
-    + right. left. exact G.
-  - intros l y e b Hb k x H. rewrite live_s_for in H. apply in_app_or in H. destruct H as [H|H].
+    + left. simpl. apply in_or_app. right. apply in_or_app. auto.
+    + left. simpl. apply in_or_app. right. apply in_or_app. auto.
+    + right. exact G.
+  - intros l y e b els Hb He k x H. rewrite live_s_for in H. apply in_app_or in H. destruct H as [H|H].
     + left. simpl. right. apply in_or_app. auto.
     + unfold live_for, live_for_gen in H.
-      assert (G : In x (reads b) \/ In x (kn k)).
-      { eapply (iter_inv (fun x => In x (reads b) \/ In x (kn k))); [| | exact H].
-        - intros z Hz. auto.
-        - intros Y HY z Hz. unfold for_step in Hz. apply in_app_or in Hz. destruct Hz as [Hz|Hz]; [auto|].
-          apply In_remove in Hz. destruct Hz as [Hz _].
-          apply Hb in Hz. simpl in Hz. destruct Hz as [Hz|[Hz|[Hz|Hz]]]; auto. }
-      destruct G as [G|G]; [left; simpl; right; apply in_or_app; auto | right; left; exact G].
+      assert (G : In x (reads b) \/ In x (reads els) \/ In x (kn k) \/ In x (kb k) \/ In x (kc k)).
+      { eapply (iter_inv (fun x => In x (reads b) \/ In x (reads els) \/ In x (kn k) \/ In x (kb k) \/ In x (kc k))); [| | exact H].
+        - intros z Hz. apply He in Hz. destruct Hz as [Hz|[Hz|[Hz|Hz]]]; auto 6.
+        - intros Y HY z Hz. unfold for_step in Hz. apply in_app_or in Hz. destruct Hz as [Hz|Hz].
+          + apply He in Hz. destruct Hz as [Hz|[Hz|[Hz|Hz]]]; auto 6.
+          + apply In_remove in Hz. destruct Hz as [Hz _].
+            apply Hb in Hz. simpl in Hz. destruct Hz as [Hz|[Hz|[Hz|Hz]]]; auto 6. }
+      destruct G as [G|[G|G]].
+      * left. simpl. right. apply in_or_app. right. apply in_or_app. auto.
+      * left. simpl. right. apply in_or_app. right. apply in_or_app. auto.
+      * right. exact G.
   - intros l e k x H. simpl in H. left. exact H.
   - intros l k x H. simpl in H. right. left. exact H.
   - intros l k x H. simpl in H. right. right. left. exact H.
@@ -674,18 +709,21 @@ Section After.
       fold (vb a (ve l c (set_pnest (pnest st + 1)%Z st))).
       fold (vb b (vb a (ve l c (set_pnest (pnest st + 1)%Z st)))).
       rewrite Hb by exact AGb. rewrite Ha by exact AGa. rewrite pnest_ve. simpl. lia.
-    - intros l c b Hb st AG. assert (L : (hi < l)%N) by (apply AG; simpl; auto).
-      assert (AGb : all_gt hi (blines b)) by (intros y Hy; apply AG; simpl; right; exact Hy).
-      simpl vs. destruct (after_flags lo hi LH l L) as [E1 [E2 E3]]. rewrite E3.
+    - intros l c b e Hb He st AG. assert (L : (hi < l)%N) by (apply AG; simpl; auto).
+      assert (AGb : all_gt hi (blines b)) by (intros y Hy; apply AG; simpl; right; apply in_or_app; left; exact Hy).
+      assert (AGe : all_gt hi (blines e)) by (intros y Hy; apply AG; simpl; right; apply in_or_app; right; exact Hy).
+      simpl vs. rewrite (sibling_after l e L). destruct (after_flags lo hi LH l L) as [E1 [E2 E3]]. rewrite E3.
       unfold loop_exit, cond_exit, set_cond, nest_exit, nest_enter, cond_enter, loop_enter. rewrite E1, E2. simpl.
       fold (vb b (ve l c (set_pnest (pnest st + 1)%Z st))).
-      rewrite Hb by exact AGb. rewrite pnest_ve. simpl. lia.
-    - intros l x e b Hb st AG. assert (L : (hi < l)%N) by (apply AG; simpl; auto).
-      assert (AGb : all_gt hi (blines b)) by (intros y Hy; apply AG; simpl; right; exact Hy).
+      fold (vb e (vb b (ve l c (set_pnest (pnest st + 1)%Z st)))).
+      rewrite He by exact AGe. rewrite Hb by exact AGb. rewrite pnest_ve. simpl. lia.
+    - intros l x e b els Hb He st AG. assert (L : (hi < l)%N) by (apply AG; simpl; auto).
+      assert (AGb : all_gt hi (blines b)) by (intros y Hy; apply AG; simpl; right; apply in_or_app; left; exact Hy).
+      assert (AGe : all_gt hi (blines els)) by (intros y Hy; apply AG; simpl; right; apply in_or_app; right; exact Hy).
       simpl vs. destruct (after_flags lo hi LH l L) as [E1 [E2 E3]]. rewrite E3.
       unfold loop_exit, cond_exit, set_cond, nest_exit, nest_enter, cond_enter, loop_enter. rewrite E1, E2. simpl.
-      match goal with |- context [fold_left _ b ?s0] => fold (vb b s0) end.
-      rewrite Hb by exact AGb. rewrite pnest_wv_after by exact L. rewrite pnest_ve, pnest_rv. simpl. lia.
+      match goal with |- context [fold_left _ b ?s0] => fold (vb b s0); fold (vb els (vb b s0)) end.
+      rewrite He by exact AGe. rewrite Hb by exact AGb. rewrite pnest_wv_after by exact L. rewrite pnest_ve, pnest_rv. simpl. lia.
     - intros l e st AG. simpl. apply pnest_ve.
     - reflexivity.
     - reflexivity.
@@ -793,38 +831,45 @@ Section After.
       eapply nstep_weaken; [exact (nstep_trans _ _ _ _ _ (nstep_trans _ _ _ _ _ (nstep_trans _ _ _ _ _ T1 T2) T3) T4) |].
       intros y Hy. simpl. rewrite app_nil_r. rewrite <- app_assoc. exact Hy.
     - (* while *)
-      intros l c b Hb st NC AG P0 _. assert (L : (hi < l)%N) by (apply AG; simpl; auto).
-      simpl in NC.
-      assert (AGb : all_gt hi (blines b)) by (intros y Hy; apply AG; simpl; right; exact Hy).
-      simpl vs. destruct (after_flags lo hi LH l L) as [E1 [E2 E3]]. rewrite E3.
+      intros l c b e Hb He st NC AG P0 _. assert (L : (hi < l)%N) by (apply AG; simpl; auto).
+      simpl in NC. apply andb_true_iff in NC. destruct NC as [NCb NCe].
+      assert (AGb : all_gt hi (blines b)) by (intros y Hy; apply AG; simpl; right; apply in_or_app; left; exact Hy).
+      assert (AGe : all_gt hi (blines e)) by (intros y Hy; apply AG; simpl; right; apply in_or_app; right; exact Hy).
+      simpl vs. rewrite (sibling_after l e L). destruct (after_flags lo hi LH l L) as [E1 [E2 E3]]. rewrite E3.
       set (prev := cond st).
       set (s1 := nest_enter true (cond_enter lo hi l (loop_enter lo l st))).
       assert (P1 : pnest s1 = (pnest st + 1)%Z) by (unfold s1, cond_enter, loop_enter; rewrite E1, E2; reflexivity).
       fold (vb b (ve l c s1)). set (s2 := vb b (ve l c s1)).
+      unfold nest_enter at 1. unfold nest_exit at 2.
+      fold (vb e s2). set (s3 := vb e s2).
       assert (T1 : nstep [] st s1).
       { eapply nstep_weaken;
           [exact (nstep_trans _ _ _ _ _ (nstep_trans _ _ _ _ _ (nstep_same6 _ _ (same6_loop_enter lo l st))
                                           (nstep_same6 _ _ (same6_cond_enter lo hi l _))) (nstep_same6 _ _ (same6_nest_enter true _))) |];
           simpl; auto. }
       assert (T2 : nstep (vars_e c ++ reads b) s1 s2).
-      { refine (nstep_trans _ _ _ _ _ (nstep_ve l c s1 L) (Hb _ NC AGb _)). rewrite pnest_ve, P1. lia. }
-      assert (T3 : nstep [] s2 (loop_exit current lo l (cond_exit current prev (nest_exit true s2)))).
+      { refine (nstep_trans _ _ _ _ _ (nstep_ve l c s1 L) (Hb _ NCb AGb _)). rewrite pnest_ve, P1. lia. }
+      assert (P2 : pnest s2 = (pnest st + 1)%Z).
+      { unfold s2. rewrite (proj2 pnest_post b _ AGb). rewrite pnest_ve. exact P1. }
+      assert (T3 : nstep (reads e) s2 s3) by (apply He; [exact NCe | exact AGe | rewrite P2; lia]).
+      assert (T4 : nstep [] s3 (loop_exit current lo l (cond_exit current prev (nest_exit true s3)))).
       { eapply nstep_weaken;
-          [exact (nstep_trans _ _ _ _ _ (nstep_trans _ _ _ _ _ (nstep_same6 _ _ (same6_nest_exit true s2))
+          [exact (nstep_trans _ _ _ _ _ (nstep_trans _ _ _ _ _ (nstep_same6 _ _ (same6_nest_exit true s3))
                                           (nstep_same6 _ _ (same6_cond_exit prev _))) (nstep_same6 _ _ (same6_loop_exit lo l _))) |];
           simpl; auto. }
-      eapply nstep_weaken; [exact (nstep_trans _ _ _ _ _ (nstep_trans _ _ _ _ _ T1 T2) T3) |].
-      intros y Hy. simpl. rewrite app_nil_r. exact Hy.
+      eapply nstep_weaken; [exact (nstep_trans _ _ _ _ _ (nstep_trans _ _ _ _ _ (nstep_trans _ _ _ _ _ T1 T2) T3) T4) |].
+      intros y Hy. simpl. rewrite app_nil_r. rewrite <- app_assoc. exact Hy.
     - (* for *)
-      intros l x e b Hb st NC AG P0 _. assert (L : (hi < l)%N) by (apply AG; simpl; auto).
-      simpl in NC.
-      assert (AGb : all_gt hi (blines b)) by (intros y Hy; apply AG; simpl; right; exact Hy).
+      intros l x e b els Hb He st NC AG P0 _. assert (L : (hi < l)%N) by (apply AG; simpl; auto).
+      simpl in NC. apply andb_true_iff in NC. destruct NC as [NCb NCe].
+      assert (AGb : all_gt hi (blines b)) by (intros y Hy; apply AG; simpl; right; apply in_or_app; left; exact Hy).
+      assert (AGe : all_gt hi (blines els)) by (intros y Hy; apply AG; simpl; right; apply in_or_app; right; exact Hy).
       simpl vs. destruct (after_flags lo hi LH l L) as [E1 [E2 E3]]. rewrite E3.
       set (prev := cond st).
       set (s1 := nest_enter true (cond_enter lo hi l (loop_enter lo l st))).
       assert (P1 : pnest s1 = (pnest st + 1)%Z) by (unfold s1, cond_enter, loop_enter; rewrite E1, E2; reflexivity).
       set (s2 := wv x l (ve l e (rv name_range l s1))).
-      fold (vb b s2). set (s3 := vb b s2).
+      fold (vb b s2). fold (vb els (vb b s2)). set (s3 := vb els (vb b s2)).
       assert (Pe : pnest (ve l e (rv name_range l s1)) = (pnest st + 1)%Z) by (rewrite pnest_ve, pnest_rv; exact P1).
       assert (T1 : nstep [] st s1).
       { eapply nstep_weaken;
@@ -837,7 +882,9 @@ Section After.
                               (nstep_wv_nested x l _ L ltac:(rewrite Pe; lia))) |].
         intros y Hy. rewrite app_nil_r. exact Hy. }
       assert (P2 : pnest s2 = (pnest st + 1)%Z) by (unfold s2; rewrite pnest_wv_after by exact L; exact Pe).
-      assert (T3 : nstep (reads b) s2 s3) by (apply Hb; [exact NC | exact AGb | rewrite P2; lia]).
+      assert (P3 : pnest (vb b s2) = (pnest st + 1)%Z) by (rewrite (proj2 pnest_post b _ AGb); exact P2).
+      assert (T3 : nstep (reads b ++ reads els) s2 s3).
+      { refine (nstep_trans _ _ _ _ _ (Hb _ NCb AGb _) (He _ NCe AGe _)); [rewrite P2; lia | rewrite P3; lia]. }
       assert (T4 : nstep [] s3 (loop_exit current lo l (cond_exit current prev (nest_exit true s3)))).
       { eapply nstep_weaken;
           [exact (nstep_trans _ _ _ _ _ (nstep_trans _ _ _ _ _ (nstep_same6 _ _ (same6_nest_exit true s3))
